@@ -20,6 +20,7 @@ LEVEL_TEXT = ('static: must-pass-through of the context reset on all exception p
               'the build path. Byte equality across processes and thread interleavings is not decided.')
 LEVEL_NOTE = 'BaseException escapes (KeyboardInterrupt) are outside "errors" and only noted'
 LEVEL_TEXT_ADD = ' Also: non-Exception interruptions on the context paths, no mutable class-level container shared by definitions, as_bytes hands out an immutable value.'
+LEVEL_TEXT_ADD += ' Rounds e-f: build functions do not modify their argument containers; no iteration over sets made on the spot in graph-building code; serialization precedes opening the definition file.'
 LEVEL_TEXT = (globals().get('LEVEL_TEXT') or EXPLANATION) + LEVEL_TEXT_ADD
 TECHNIQUE = 'static analysis: must-pass-through on enumerated exception paths + ownership/lock-context + unordered-use census'
 
